@@ -30,8 +30,11 @@ struct ThreadRec {
 
 static std::mutex G;                               // protects everything below
 static std::condition_variable ctl_cv;             // the controller waits here
-static std::vector<std::unique_ptr<ThreadRec>> T;  // scheduled threads of the current session
-static std::vector<std::unique_ptr<ThreadRec>> abandoned;
+// both vectors are never destroyed: threads of a session that hangs stay parked on their condition variables, and
+// destroying those at process exit blocks for ever (pthread_cond_destroy waits for the waiters) - a driver that has
+// already printed its verdict must be able to exit
+static std::vector<std::unique_ptr<ThreadRec>> & T = *new std::vector<std::unique_ptr<ThreadRec>>;   // threads of the current session
+static std::vector<std::unique_ptr<ThreadRec>> & abandoned = *new std::vector<std::unique_ptr<ThreadRec>>;
 static int current = -1;                           // id of the running scheduled thread, -1 = controller
 static std::set<const void *> untracked;
 static std::set<const void *> postunlock;
